@@ -844,7 +844,16 @@ fn gen_scratch(_prop: &str, rng: &mut Rng, run: u64) -> (Config, Vec<Op>) {
                     if rng.chance(1, 12) {
                         cb.push('~');
                     }
-                    plan.push(Op::Dist { t, ca, cb, a, b })
+                    let again = rng.chance(1, 8);
+                    let (a2, b2) = (a.clone(), b.clone());
+                    plan.push(Op::Dist { t, ca, cb, a, b });
+                    if again {
+                        // the same spelling pair straight away under other character classes (what two
+                        // languages make of one word), or unclassified
+                        let other: String = if rng.chance(1, 2) { "a".repeat(a2.chars().count()) } else { class_string(&a2).chars().map(|c| if c == 'v' { 'c' } else if c == 'c' { 'v' } else { c }).collect() };
+                        let cb2 = if rng.chance(1, 2) { "a".repeat(b2.chars().count()) } else { class_string(&b2) };
+                        plan.push(Op::Dist { t, ca: other, cb: cb2, a: a2, b: b2 });
+                    }
                 }
                 5..=7 => plan.push(Op::Jacc { t, a, b }),
                 8 => plan.push(Op::WMatch { t, r: a, q: b, fin: rng.chance(1, 2) }),
@@ -876,12 +885,30 @@ fn gen_scratch(_prop: &str, rng: &mut Rng, run: u64) -> (Config, Vec<Op>) {
         // many identical cheap calls in a row, right after something else and right before something
         // else: counters that wrap at 2^8 / 2^16, idle heuristics that fire after 2^10 quiet calls
         if rng.chance(1, 6) && !plan.is_empty() {
-            let n = if rng.chance(1, 4) { *rng.pick(&[65534usize, 65535, 65536, 65537]) } else { *rng.pick(&[254usize, 255, 256, 257, 1023, 1024, 1025, 2048, 4100]) };
+            let n = if rng.chance(1, 4) { *rng.pick(&[65534usize, 65535, 65536, 65537, 32766, 32767, 32768, 32769]) } else { *rng.pick(&[254usize, 255, 256, 257, 1023, 1024, 1025, 2048, 4100, 16383, 16384, 16385]) };
             let alph = *rng.pick(&["aebc1_", "ab", "bcdfg"]);
             let a = synth_word(rng, alph, 1, 4);
             let b = mutate(rng, &a, alph);
             let at = rng.range(1, plan.len());
-            plan.insert(at, Op::Burst { t, ca: class_string(&a), cb: class_string(&b), a, b, n });
+            if rng.chance(1, 2) {
+                plan.insert(at, Op::Burst { t, ca: class_string(&a), cb: class_string(&b), a, b, n });
+            } else {
+                // the same on the word matcher's thread-local pre-filter, followed by words whose tails
+                // use characters this thread has not seen yet
+                let rare = *rng.pick(&["ьэюяшщ", "αβγδεζ", "ĸĳŋđħŧ", "٠١٢٣٤٥"]);
+                let base_alph = *rng.pick(&["a", "ab", "mail"]);
+                let base = synth_word(rng, base_alph, 2, 6);
+                let fin = rng.chance(1, 2);
+                let mut seq = vec![Op::JBurst { t, r: a.clone(), q: b.clone(), fin, n }];
+                for _ in 0..rng.range(1, 3) {
+                    let tq = synth_word(rng, rare, 1, 3);
+                    let tr = if rng.chance(1, 2) { synth_word(rng, "xyz", 1, 2) } else { synth_word(rng, rare, 1, 3) };
+                    seq.push(Op::JCheck { t, r: format!("{}{}", base, tr), q: format!("{}{}", base, tq), fin });
+                }
+                for (k, o) in seq.into_iter().enumerate() {
+                    plan.insert(at + k, o);
+                }
+            }
         }
         plans.push(plan);
     }
